@@ -1034,6 +1034,9 @@ class Num:
                     tvn = dict(st.notes.get("tabvals", {}))
                     tvn[a] = tuple(sorted(set(vals)))
                     st.notes["tabvals"] = tvn
+                    tix = dict(st.notes.get("tabidx", {}))
+                    tix[a] = (tuple(tab), i)  # which table, read at which index
+                    st.notes["tabidx"] = tix
                     return Poly.atom(a)
             if b is not None and i is not None and "w" in t:
                 bt = self.ty(bn)
@@ -2587,6 +2590,26 @@ class Num:
                         G = (newv[b_] - pre[b_]) - (newv[a_] - pre[a_]) * cc
                         hc.append((cid, G, {_atom(newv[b_]): b_, _atom(newv[a_]): a_}))
                         st.add(G)
+        # a key every update of which adds (subtracts) a per-iteration value of unsigned type moves one way only -
+        # unless the arithmetic wraps: a candidate, kept only if re-established at every back edge
+        if "*" not in dropped:
+            signs = {}
+            for x in eff:
+                if x[0] in ("var", "field") and len(x) > 2:
+                    k = ("v:" + x[1]) if x[0] == "var" else self.key(x[3], st)
+                    if k not in newv or len(newv[k].t) != 1:
+                        continue
+                    ss_ = self.sym_step(x[-1], header) if self.const_step(x[-1]) is None else None
+                    signs.setdefault(k, set()).add((1 if ss_[0] > 0 else -1) if ss_ is not None else 0)
+            for k, sg in signs.items():
+                if len(sg) == 1 and 0 not in sg:
+                    sgn = list(sg)[0]
+                    cid = _stable("symstep-mono<%s|%d>" % (k, sgn))
+                    if cid in dropped:
+                        continue
+                    G = (pre[k] - newv[k]) * sgn
+                    hc.append((cid, G, {_atom(newv[k]): k}))
+                    st.add(G)
         lc = dict(st.notes.get("loop_cands", {}))
         lc[header] = hc
         st.notes["loop_cands"] = lc
@@ -2750,10 +2773,70 @@ class Num:
                     return fn.is_const(y) * esz * (1 if r["op"] == "+" else -1)
         return None
 
+    def sym_step(self, n, header):
+        """(coefficient, symbol) of an update x += v / x -= v / x = x + v / x = (T)x + v whose step is the local v - a value
+        fixed during one iteration: v is written exactly once in the loop (its declaration or one assignment, outside any
+        nested loop) in a block that dominates the update; None otherwise"""
+        fn = self.fn
+        lhs = step = None
+        sign = 1
+        if n["k"] == "bin" and n["op"] in ("+=", "-="):
+            lhs, step, sign = fn.d(n["a"][0]), fn.d(n["a"][1]), (1 if n["op"] == "+=" else -1)
+        elif n["k"] == "bin" and n["op"] == "=":
+            r = fn.d(n["a"][1])
+            while r is not None and r["k"] == "cast":
+                r = fn.d(r["a"][0])
+            if r is not None and r["k"] == "bin" and r["op"] in ("+", "-"):
+                xx = fn.d(r["a"][0])
+                while xx is not None and xx["k"] == "cast":
+                    xx = fn.d(xx["a"][0])
+                if xx is not None and fn.show(xx) == fn.show(fn.d(n["a"][0])):
+                    lhs, step, sign = fn.d(r["a"][0]), fn.d(r["a"][1]), (1 if r["op"] == "+" else -1)
+        while step is not None and step["k"] == "cast":
+            step = fn.d(step["a"][0])
+        if lhs is None or step is None or step["k"] != "var" or step.get("sc") != "local":
+            return None
+        lt = self.ty(lhs)
+        esz = (lt.get("psz") or 1) if lt.get("ptr") else 1
+        name = step["n"]
+        body = self.loops()[header]
+        inner = set()
+        for h2, b2 in self.loops().items():
+            if h2 != header and h2 in body:
+                inner |= b2
+        writes = []
+        for b in body:
+            for el in fn.blocks[b].elems:
+                for x in fn.walk(el):
+                    if x["k"] == "decl" and any(v["n"] == name for v in x["vars"]):
+                        writes.append(b)
+                    elif x["k"] == "bin" and x["op"] in ASSIGN and (fn.d(x["a"][0]) or {}).get("k") == "var" and fn.d(x["a"][0])["n"] == name:
+                        writes.append(b)
+                    elif x["k"] == "un" and x["op"] in ("post++", "post--", "pre++", "pre--", "addr") and (fn.d(x["a"][0]) or {}).get("k") == "var" and fn.d(x["a"][0])["n"] == name:
+                        writes.append(b)
+        ub = self.elem_of.get(n["id"], (None, None))[0]
+        if len(writes) != 1 or writes[0] in inner or ub is None:
+            return None
+        from .cfg import dominators
+        dom = dominators(fn)
+        if writes[0] != ub and writes[0] not in dom.get(ub, ()):
+            return None
+        if writes[0] == ub:
+            # the write must come first in the block
+            seen_w = False
+            for el in fn.blocks[ub].elems:
+                for x in fn.walk(el):
+                    if x is n and not seen_w:
+                        return None
+                    if (x["k"] == "decl" and any(v["n"] == name for v in x["vars"])) or (x["k"] == "bin" and x["op"] in ASSIGN and (fn.d(x["a"][0]) or {}).get("k") == "var" and fn.d(x["a"][0])["n"] == name):
+                        seen_w = True
+        return (sign * esz, name)
+
     def relation_candidates(self, header, eff, pre, direction, st):
         """Houdini-style: candidate relations  c_a*delta_a == c_b*delta_b  between two keys all of whose updates in the
-        loop are constant steps outside nested loops; a candidate is kept only when every path through one iteration
-        (header -> back edge) changes the two keys in the same ratio, i.e. the relation is inductive."""
+        loop are constant steps (or steps by one and the same per-iteration value, sym_step) outside nested loops; a
+        candidate is kept only when every path through one iteration (header -> back edge) changes the two keys in the same
+        ratio, i.e. the relation is inductive."""
         fn = self.fn
         loops = self.loops()
         body = loops[header]
@@ -2761,7 +2844,7 @@ class Num:
         for h2, b2 in loops.items():
             if h2 != header and h2 in body:
                 inner |= b2
-        steps = {}   # key -> {block: total constant step} ; None when not constant / inside an inner loop
+        steps = {}   # key -> {(block, symbol): total step in units of the symbol (None: the constant 1)}
         bad = set()
         for x in eff:
             if x[0] in ("var", "field") and len(x) > 2:
@@ -2770,12 +2853,17 @@ class Num:
                 if k not in pre:
                     continue
                 c = self.const_step(n)
+                sym = None
+                if c is None:
+                    ss = self.sym_step(n, header)
+                    if ss is not None:
+                        c, sym = ss
                 blk = self.elem_of.get(n["id"], (None, None))[0]
                 if c is None or blk is None or blk in inner:
                     bad.add(k)
                 else:
                     steps.setdefault(k, {})
-                    steps[k][blk] = steps[k].get(blk, 0) + c
+                    steps[k][(blk, sym)] = steps[k].get((blk, sym), 0) + c
             elif x[0] == "var" and ("v:" + x[1]) in pre:
                 bad.add("v:" + x[1])
         keys = [k for k in steps if k not in bad]
@@ -2803,21 +2891,25 @@ class Num:
         for i in range(len(keys)):
             for j in range(i + 1, len(keys)):
                 a, b = keys[i], keys[j]
+                syms = {sy for (_, sy) in steps[a]} | {sy for (_, sy) in steps[b]}
                 ratio = None
                 ok = True
                 for p in paths:
-                    ta = sum(steps[a].get(x, 0) for x in p)
-                    tb = sum(steps[b].get(x, 0) for x in p)
-                    if ta == 0 and tb == 0:
-                        continue
-                    if ta == 0 or tb == 0:
-                        ok = False
-                        break
-                    r = Fraction(ta, tb)
-                    if ratio is None:
-                        ratio = r
-                    elif ratio != r:
-                        ok = False
+                    for sy in syms:
+                        ta = sum(steps[a].get((x, sy), 0) for x in p)
+                        tb = sum(steps[b].get((x, sy), 0) for x in p)
+                        if ta == 0 and tb == 0:
+                            continue
+                        if ta == 0 or tb == 0:
+                            ok = False
+                            break
+                        r = Fraction(ta, tb)
+                        if ratio is None:
+                            ratio = r
+                        elif ratio != r:
+                            ok = False
+                            break
+                    if not ok:
                         break
                 if ok and ratio is not None:
                     out.append({a: ratio.denominator, b: -ratio.numerator})
